@@ -43,6 +43,19 @@ def handle : List String → String
       match compileProg gs p with
       | .error _ => "err\tcompile\t-"
       | .ok codes => showVM (runCodes 2000000 gs codes)
+  | ["vmtrace", sx, globals] =>
+    -- the model's outcome followed by its dispatch trace: number of dispatched instructions and
+    -- the first 4000 observations `code:pc:height`
+    match decodeProg sx with
+    | none => "error\tcannot decode the program"
+    | some p =>
+      let gs := (globals.splitOn ",").filter (· ≠ "")
+      match compileProg gs p with
+      | .error _ => "err\tcompile\t-\t0\t-"
+      | .ok codes =>
+        let r := runCodesTrace 2000000 gs codes
+        let shown := (r.2.toList.take 4000).map fun (id, pc, h) => id ++ ":" ++ toString pc ++ ":" ++ toString h
+        showVM r.1 ++ "\t" ++ toString r.2.size ++ "\t" ++ (if shown.isEmpty then "-" else ",".intercalate shown)
   | ["compile", sx, globals] =>
     match decodeProg sx with
     | none => "error\tcannot decode the program"
